@@ -153,6 +153,13 @@ void at_checks(Seq const &s, int index, char const *name)
   bool ok = r.has_value() == in && cr.has_value() == in;
   if (ok && in) ok = &r.get_unsafe().get() == &src[static_cast<std::size_t>(index)] && &cr.get_unsafe().get() == &src[static_cast<std::size_t>(index)] && r.get_unsafe().get().id() == s.at(index) * 16 + index;
   chkk(ok, [name, in] { return std::string(in ? "container::at_optional|result|index-in-range|" : "container::at_optional|result|index-out-of-range|") + name; }, [&] { return "at_optional(" + show(s) + ", " + std::to_string(index) + ") wrong"; });
+  // indices beyond the signed range of the size type are out of range, too
+  using size_type = typename C::size_type;
+  for (size_type const huge : {static_cast<size_type>(-1), static_cast<size_type>(static_cast<size_type>(-1) / 2 + 1 + static_cast<size_type>(index)), static_cast<size_type>(static_cast<size_type>(-1) - static_cast<size_type>(index))})
+  {
+    bool const none = !fcppt::container::at_optional(src, huge).has_value() && !fcppt::container::at_optional(std::as_const(src), huge).has_value();
+    chkk(none, [name] { return std::string("container::at_optional|result|huge-index|") + name; }, [&] { return "at_optional(" + show(s) + ", " + std::to_string(huge) + ") has a value"; });
+  }
 }
 template <typename C, bool Front>
 void ends_checks(Seq const &s, char const *name)
@@ -409,7 +416,9 @@ void array_pair(i64 code)
   for (std::size_t i = 0; i < N2; ++i) w2.push_back(dig(c2, static_cast<int>(i), 3) * 16 + 4 + static_cast<int>(i));
   w12 = w1;
   w12.insert(w12.end(), w2.begin(), w2.end());
-  // init: one call per index (order not documented), element i = f(i)
+  // init: one call per index, element i = f(i). Reading: the property statement lists array::init and
+  // array::map among the helpers that "visit elements in order"; the implementation guarantees it
+  // (braced initialisation evaluates left to right), so the calls must come in index order.
   IV log;
   auto const ini = fcppt::array::init<fcppt::array::object<int, N1>>([&log]<std::size_t I>(std::integral_constant<std::size_t, I>) { log.push_back(static_cast<int>(I)); return static_cast<int>(I) * 7; });
   IV wi, sorted = log;
@@ -418,6 +427,7 @@ void array_pair(i64 code)
   IV wl;
   for (std::size_t i = 0; i < N1; ++i) wl.push_back(static_cast<int>(i));
   chk(ints(ini) == wi && sorted == wl, "array::init|result", [&] { return "array::init<" + std::to_string(N1) + "> gave " + show(ints(ini)) + " with calls " + show(log); });
+  chk(log == wl, "array::init|call-order", [&] { return "array::init<" + std::to_string(N1) + "> called its function in the order " + show(log) + ", expected index order"; });
   auto const a1 = make_array<N1>(c1, 0);
   auto const a2 = make_array<N2>(c2, 4);
   chk(ids(a1) == w1 && ids(a2) == w2, "array::init|result-elements", [&] { return "array::init of elements gave ids " + show(ids(a1)) + " " + show(ids(a2)); });
@@ -429,6 +439,7 @@ void array_pair(i64 code)
     for (int x : w1) wm.push_back(x + 1000);
     std::sort(s2.begin(), s2.end());
     chk(ints(m) == wm && s2 == wl, "array::map|result", [&] { return "array::map over " + show(w1) + " gave " + show(ints(m)) + " with calls " + show(mlog); });
+    chk(mlog == wl, "array::map|call-order", [&] { return "array::map visited the positions " + show(mlog) + ", expected index order"; });
     auto const mm = fcppt::array::map(make_array<N1>(c1, 0), [](El &&e) { return El(std::move(e)); });
     chk(ids(mm) == w1, "array::map|result-rvalue", [&] { return "array::map over an rvalue gave ids " + show(ids(mm)); });
   }
